@@ -224,9 +224,14 @@ Definition is_some {A} (o : option A) : bool := match o with Some _ => true | No
 Section Step.
 Variable sat : bool.
 
-Definition do_save (s : state) (k : key) (old : option rec) (r : rec) (tc0 ec0 : bool) (f : flags) : state :=
+(* [ec0]: this call invoked SetExpirationTime.  No API path sets contentTypeChanged today (only
+   the Reset* methods of treasure.go do, and nothing calls them), so the flag reaches
+   SaveFunction only through [tc_extra]; a record that is void never carries it
+   (SetContentVoid does not convert an existing record). *)
+Definition do_save (s : state) (k : key) (old : option rec) (r : rec) (ec0 : bool) (f : flags) : state :=
   {| recs := upsert k r (recs s);
-     idx := save_index (is_some old) (tc0 || tc_extra f) (ec0 || ec_extra f) k r (idx s) |}.
+     idx := save_index (is_some old) (tc_extra f && negb (kind_eqb (r_kind r) KVoid))
+                       (ec0 || ec_extra f) k r (idx s) |}.
 
 Definition claimed_keys (test : Z -> bool) (s : state) : list key :=
   filter (fun k => match lookup k (recs s) with Some r => test (r_exp r) | None => false end) (idx_keys s).
@@ -239,7 +244,7 @@ Definition patch_expired_one (clear : bool) (t : ts) (f : flags) (s : state) (k 
       match r_kind r with
       | KBytes =>
           let '(e', ec0) := patch_path sat clear t (r_exp r) in
-          do_save s k (Some r) {| r_kind := KBytes; r_exp := e' |} false ec0 f
+          do_save s k (Some r) {| r_kind := KBytes; r_exp := e' |} ec0 f
       | _ => s
       end
   | None => s
@@ -258,21 +263,19 @@ Definition step (s : state) (o : op) : state :=
   match o with
   | OSet k kd t f =>
       let old := lookup k (recs s) in
-      let kd' := set_kind old kd in
       let '(e', ec0) := set_path sat t (old_exp old) in
-      let tc0 := match old with Some r => negb (kind_eqb (r_kind r) kd') | None => true end in
-      do_save s k old {| r_kind := kd'; r_exp := e' |} tc0 ec0 f
+      do_save s k old {| r_kind := set_kind old kd; r_exp := e' |} ec0 f
   | OInc k tn te f =>
       match lookup k (recs s) with
       | None =>
           let '(e', ec0) := inc_path sat tn 0 in
-          do_save s k None {| r_kind := KInt; r_exp := e' |} true ec0 f
+          do_save s k None {| r_kind := KInt; r_exp := e' |} ec0 f
       | Some r =>
           match r_kind r with
           | KInt => let '(e', ec0) := inc_path sat te (r_exp r) in
-                    do_save s k (Some r) {| r_kind := KInt; r_exp := e' |} false ec0 f
+                    do_save s k (Some r) {| r_kind := KInt; r_exp := e' |} ec0 f
           | KVoid => let '(e', ec0) := inc_path sat tn (r_exp r) in
-                     do_save s k (Some r) {| r_kind := KInt; r_exp := e' |} true ec0 f
+                     do_save s k (Some r) {| r_kind := KInt; r_exp := e' |} ec0 f
           | KBytes => s                                    (* "value is not an integer" *)
           end
       end
@@ -281,15 +284,15 @@ Definition step (s : state) (o : op) : state :=
       | None =>
           if create then
             let '(e', ec0) := patch_path sat clear t 0 in
-            do_save s k None {| r_kind := KBytes; r_exp := e' |} true ec0 f
+            do_save s k None {| r_kind := KBytes; r_exp := e' |} ec0 f
           else s
       | Some r =>
           match r_kind r with
           | KBytes => let '(e', ec0) := patch_path sat clear t (r_exp r) in
-                      do_save s k (Some r) {| r_kind := KBytes; r_exp := e' |} false ec0 f
+                      do_save s k (Some r) {| r_kind := KBytes; r_exp := e' |} ec0 f
           | KVoid => if create then
                        let '(e', ec0) := patch_path sat clear t (r_exp r) in
-                       do_save s k (Some r) {| r_kind := KBytes; r_exp := e' |} true ec0 f
+                       do_save s k (Some r) {| r_kind := KBytes; r_exp := e' |} ec0 f
                      else s
           | KInt => s                                      (* TYPE_MISMATCH *)
           end
